@@ -357,6 +357,9 @@ def run(world, inc, lab_dir, disk_dir, t0):
         tracer = Tracer(nb, pkg, plan=plan, budget=world.get("budget_steps"),
                         record=world.get("record_lines"), state=_State(ctx))
         ctx.tracer = tracer
+        if world.get("opcode_funcs"):
+            tracer.opcode_funcs = set(world["opcode_funcs"])
+            tracer.record_ops = bool((world.get("record_lines") or {}).get("compact"))
 
         kwargs = materialise_kwargs(ctx, scn, model)
         run_kwargs = dict(scn.get("run_kwargs", {}))
